@@ -84,13 +84,13 @@ type Ctx struct {
 	Res      *ShardResult
 	findings []Finding
 	mu       sync.Mutex
-	seen     map[[32]byte]bool
+	seen     map[uint64]struct{}
 	maxViol  int
 }
 
 // NewCtx creates a shard context.
 func NewCtx(prop, tier string, shard, of int, seed int64, budget time.Duration) *Ctx {
-	c := &Ctx{Property: prop, Tier: tier, Shard: shard, Of: of, Seed: seed, findings: LoadFindings(), seen: map[[32]byte]bool{}, maxViol: 5}
+	c := &Ctx{Property: prop, Tier: tier, Shard: shard, Of: of, Seed: seed, findings: LoadFindings(), seen: map[uint64]struct{}{}, maxViol: 5}
 	if budget > 0 {
 		c.Deadline = time.Now().Add(budget)
 	}
@@ -121,9 +121,15 @@ func (c *Ctx) Eval(key []byte, nontrivial bool) {
 	if !nontrivial {
 		return
 	}
-	h := sha256.Sum256(key)
-	if !c.seen[h] {
-		c.seen[h] = true
+	// 64-bit FNV-1a keeps the distinctness set small (collisions are negligible
+	// below ~10^8 keys and could only make the count smaller)
+	var h uint64 = 14695981039346656037
+	for _, b := range key {
+		h ^= uint64(b)
+		h *= 1099511628211
+	}
+	if _, ok := c.seen[h]; !ok {
+		c.seen[h] = struct{}{}
 		c.Res.DistinctNontrivial++
 	}
 }
